@@ -978,7 +978,7 @@ func (p *Proc) havocPointee(st *State, ptr Val) {
 			h := p.fieldHeap(st, elem, f)
 			v := Val{T: p.freshConst("dec_"+f.Name(), p.ctx.sortOf(f.Type())), Typ: f.Type()}
 			p.wfAssume(st, v)
-			p.allocAssume(st, v)
+			p.decodedFresh(st, v)
 			p.heapSet(st, key, Store(h, ptr.T, v.T))
 		}
 		return
@@ -989,7 +989,37 @@ func (p *Proc) havocPointee(st *State, ptr Val) {
 	key := p.ptrHeapKey(elem)
 	v := Val{T: p.freshConst("dec", p.ctx.sortOf(elem)), Typ: elem}
 	p.wfAssume(st, v)
+	p.decodedFresh(st, v)
 	p.heapSet(st, key, Store(p.ptrHeap(st, elem), ptr.T, v.T))
+}
+
+// decodedFresh: maps, pointers and backing arrays produced by the JSON decoder are newly
+// allocated (or nil): they alias nothing that existed before the call.
+func (p *Proc) decodedFresh(st *State, v Val) {
+	var ref *Term
+	switch v.Typ.Underlying().(type) {
+	case *types.Map, *types.Pointer:
+		ref = v.T
+	case *types.Slice:
+		ref = SlArr(v.T)
+	default:
+		return
+	}
+	p.ctx.notes["trusted contract: encoding/json.Unmarshal allocates the maps, pointers and arrays it stores (they alias nothing that existed before)"] = true
+	al := p.heapGet(st, "AL:", ArrSort(SInt, SBool))
+	// wfAssume already said "allocated now"; say "was not allocated before" through a new allocation map
+	nal := p.freshConst("H_AL:", ArrSort(SInt, SBool))
+	st.assume(T(fmt.Sprintf("(forall ((r!m Int)) (! (=> (select %s r!m) (select %s r!m)) :pattern ((select %s r!m))))", al.S, nal.S, nal.S), SBool))
+	_ = nal
+	st.assume(Or(Eq(ref, IntLit(0)), Not(Sel(p.entryAL(st), ref))))
+}
+
+// entryAL is the allocation map at procedure entry.
+func (p *Proc) entryAL(st *State) *Term {
+	if t, ok := p.heapEntry["AL:"]; ok {
+		return t
+	}
+	return p.heapGet(p.entry, "AL:", ArrSort(SInt, SBool))
 }
 
 func recvTypeOf(sig *types.Signature) types.Type {
